@@ -705,6 +705,99 @@ pub fn gen_impl_bounds(files: &BTreeMap<String, syn::File>, out: &mut String) {
     writeln!(out, "\n(* every trait impl for a type built from GenericArray / GenericArrayIter: (file, impl header, the bounds on\n   its type parameters: generic-parameter bounds and where-predicates, normalised, sorted) *)\nDefinition gen_impl_bounds : list (String.string * String.string * list String.string) :=\n  [{}]%string.", rows.join(";\n   ")).unwrap();
 }
 
+
+// ------------------------------------------------------------------ trait headers (T1)
+
+/// every trait the crate declares (outside test modules): (file, header, rows) where the rows are the
+/// supertraits (`Self:X`), the bounds on its parameters and its where-predicates, every associated type
+/// with each of its bounds (`type A:X`), every associated const, and the signature of every method
+/// (normalised token text, sorted).  What a caller generic over the trait may assume -- and must state.
+pub fn gen_trait_headers(files: &BTreeMap<String, syn::File>, out: &mut String) {
+    use syn::TraitItem;
+    let norm = |s: String| -> String { s.split_whitespace().collect::<Vec<_>>().join("") };
+    let mut rows = vec![];
+    for (fname, file) in files {
+        for it in &file.items {
+            let Item::Trait(tr) = it else { continue };
+            let mut gens = vec![];
+            let mut lines: Vec<String> = vec![];
+            for gp in &tr.generics.params {
+                match gp {
+                    syn::GenericParam::Type(tp) => {
+                        gens.push(tp.ident.to_string());
+                        for b in &tp.bounds {
+                            lines.push(format!("{}:{}", tp.ident, norm(b.to_token_stream().to_string())));
+                        }
+                        if let Some(d) = &tp.default {
+                            lines.push(format!("{}={}", tp.ident, norm(d.to_token_stream().to_string())));
+                        }
+                    }
+                    syn::GenericParam::Lifetime(l) => gens.push(l.lifetime.to_string()),
+                    syn::GenericParam::Const(c) => gens.push(format!("const {}", c.ident)),
+                }
+            }
+            for sup in &tr.supertraits {
+                lines.push(format!("Self:{}", norm(sup.to_token_stream().to_string())));
+            }
+            let mut preds = |wc: &Option<syn::WhereClause>, prefix: &str, lines: &mut Vec<String>| {
+                if let Some(wc) = wc {
+                    for pr in &wc.predicates {
+                        match pr {
+                            syn::WherePredicate::Type(pt) => {
+                                let lhs = norm(pt.bounded_ty.to_token_stream().to_string());
+                                for b in &pt.bounds {
+                                    lines.push(format!("{}{}:{}", prefix, lhs, norm(b.to_token_stream().to_string())));
+                                }
+                            }
+                            other => lines.push(format!("{}{}", prefix, norm(other.to_token_stream().to_string()))),
+                        }
+                    }
+                }
+            };
+            preds(&tr.generics.where_clause, "", &mut lines);
+            for ti in &tr.items {
+                match ti {
+                    TraitItem::Type(t) => {
+                        let g = norm(t.generics.params.to_token_stream().to_string());
+                        let name = if g.is_empty() { t.ident.to_string() } else { format!("{}<{}>", t.ident, g) };
+                        if t.bounds.is_empty() {
+                            lines.push(format!("type {}", name));
+                        }
+                        for b in &t.bounds {
+                            lines.push(format!("type {}:{}", name, norm(b.to_token_stream().to_string())));
+                        }
+                        preds(&t.generics.where_clause, &format!("type {} where ", name), &mut lines);
+                        if let Some((_, d)) = &t.default {
+                            lines.push(format!("type {}={}", name, norm(d.to_token_stream().to_string())));
+                        }
+                    }
+                    TraitItem::Const(c) => lines.push(format!("const {}:{}", c.ident, norm(c.ty.to_token_stream().to_string()))),
+                    TraitItem::Fn(f) => {
+                        let has_default = if f.default.is_some() { " {default}" } else { "" };
+                        lines.push(format!("{}{}", f.sig.to_token_stream().to_string().split_whitespace().collect::<Vec<_>>().join(" "), has_default));
+                    }
+                    other => {
+                        println!("ERROR GenSigs.v trait_headers {}: unsupported trait item `{}`", fname, other.to_token_stream());
+                    }
+                }
+            }
+            lines.sort();
+            let unsafety = if tr.unsafety.is_some() { "unsafe " } else { "" };
+            let vis = if matches!(tr.vis, syn::Visibility::Public(_)) { "pub " } else { "" };
+            let header = if gens.is_empty() { tr.ident.to_string() } else { format!("{}<{}>", tr.ident, gens.join(",")) };
+            rows.push(format!(
+                "(\"{}\", \"{}{}trait {}\", [{}])",
+                fname,
+                vis,
+                unsafety,
+                header,
+                lines.iter().map(|n| format!("\"{}\"", n.replace('"', "\"\""))).collect::<Vec<_>>().join("; ")
+            ));
+        }
+    }
+    writeln!(out, "\n(* every trait the crate declares: (file, header, supertraits `Self:X` + parameter bounds + where-predicates +\n   associated types with each bound + associated consts + method signatures, normalised, sorted) *)\nDefinition gen_trait_headers : list (String.string * String.string * list String.string) :=\n  [{}]%string.", rows.join(";\n   ")).unwrap();
+}
+
 // ------------------------------------------------------------------ thin bodies (T1)
 
 /// every method of an impl (for a type built from GenericArray / GenericArrayIter) and every default method
